@@ -47,7 +47,7 @@ TREES = ["[0,[1,2]]", "[[0],[1],[2]]", "[[0,1],[2,[3]]]", "[[[0]]]",
 THEORIES = {"Mie": ("Mie", (), {}), "MieLens": ("MieLens", (0.8,), {}),
             "Lens": ("Lens", (0.8, ("Mie", (False, False), {}), 48, 48), {})}
 POLS = [(1, 0), (0, 1), (1, 1), (3, 4), (-2, 0.5), (0, -7), (1e-3, 1),
-        (1, 1, 0), (3, -2, 0)]
+        (1, 1, 0), (3, -2, 0), (0.70711, 0.70711), (-1, 0), (1, -2)]
 LIN_TH = {"Mie": ("Mie", (), {}),
           "Multisphere": ("Multisphere", (), {"eps": 1e-12, "qeps1": 1e-12,
                                               "qeps2": 1e-14}),
@@ -66,7 +66,7 @@ NOISE = {"red": 0.05, "green": 0.08, "blue": 0.02}
 CH_AXES = {
     "nch": [2, 3],
     "wl": ["dict", "xarray"],
-    "pol": ["vector", "dict", "xarray"],
+    "pol": ["vector", "dict", "xarray", "xarray-raw"],
     "n": ["scalar", "dict", "xarray"],
     "r": ["scalar", "dict"],
     "alpha": ["scalar", "dict"],
@@ -238,6 +238,14 @@ def _mk_param(kind, table, labels, order, vec=False):
         return table[labels[0]]
     if kind == "dict":
         return {lab: table[lab] for lab in _perm(labels, order)}
+    if kind == "xarray-raw":
+        # a labelled array whose rows are NOT unit vectors
+        raw = {"red": (2.0, 0.0, 0.0), "green": (0.0, 3.0, 0.0),
+               "blue": (0.3, 0.4, 0.0)}
+        return xr.DataArray([raw[lab] for lab in labels],
+                            dims=["illumination", "vector"],
+                            coords={"illumination": labels,
+                                    "vector": ["x", "y", "z"]})
     if kind == "xarray":
         if vec:
             return xr.concat([to_vector(table[lab]) for lab in labels],
